@@ -375,6 +375,28 @@ func prepare(c Cfg) (*setup, error) {
 			return libraryPeers(c)
 		}
 	}
+	if c.Op == "recvdrip" {
+		// a slow peer: one byte of an endless envelope every 50 ms (the socket always has something to deliver
+		// long before its poll deadline)
+		addr, stop, err := rawListener(func(cn net.Conn) {
+			cn.Write([]byte(`{"id":"drip","type":"text/plain","content":"`))
+			for {
+				if _, err := cn.Write([]byte("x")); err != nil {
+					return
+				}
+				time.Sleep(50 * time.Millisecond)
+			}
+		})
+		if err != nil {
+			return nil, err
+		}
+		t, err := lime.DialTcp(bg, addr, nil)
+		if err != nil {
+			stop()
+			return nil, err
+		}
+		return &setup{run: func(ctx context.Context) error { _, e := t.Receive(ctx); return e }, cleanup: stop}, nil
+	}
 	switch c.Op {
 	case "send", "receive":
 		switch c.Tr {
